@@ -232,7 +232,10 @@ def run(R):
                 for none in (False, True):
                     if quick and none and (nfiles > 1 or nbits != 8):
                         continue
-                    items.append((op, nbits, nchans, nfiles, none, nblocks if nfiles < 3 else min(nblocks, 3), 2 if quick else 15, 200 if quick else 1500))
+                    nb = nblocks if nfiles < 3 else min(nblocks, 3)
+                    if op == "dedisperse" and nbits < 8 and nfiles >= 2:
+                        nb = min(nb, 3)      # measured: 4 blocks of sub-byte dedispersion over 2 files leave z3 undecided for > 180 s per branch
+                    items.append((op, nbits, nchans, nfiles, none, nb, 2 if quick else 15, 200 if quick else 1500))
     from sigpyproc.core import kernels as K
     for kn in ("extract_tim", "extract_bpass", "dedisperse"):
         R.encode(getattr(K, kn))
